@@ -581,6 +581,11 @@ type Decision struct {
 	Tier   string
 	Policy string
 	Rule   int
+	// Ambiguous is set in the one case the documentation leaves open: a "pass" rule matched in
+	// a profile (reported as Denied / "profile-pass") and a LATER profile of the endpoint
+	// would have allowed the packet.  The iptables/nftables dataplanes go on to the next
+	// profile, the BPF dataplane denies at once.  Checks should not judge such a packet.
+	Ambiguous bool
 }
 
 func (d Decision) String() string {
@@ -597,8 +602,9 @@ func (d Decision) String() string {
 //     case evaluation moves on to the next tier (for untracked and pre-DNAT kinds a tier never
 //     denies by default and evaluation always moves on);
 //   - KindNormal: after the tiers (all passed / empty) the profiles are evaluated in order;
-//     allow and deny are final, a pass in a profile is not an allow, and a packet that no
-//     profile allowed is denied;
+//     allow and deny are final; a pass in a profile is NOT an allow: it is reported as Denied
+//     (see Decision.Ambiguous for the one case that leaves open); a packet that no profile
+//     allowed is denied;
 //   - KindForward: with no tiers at all, allowed; otherwise if the tiers end without a
 //     verdict, NoVerdict;
 //   - KindUntracked / KindPreDNAT: if the tiers end without a verdict, NoVerdict.
@@ -623,9 +629,9 @@ func Endpoint(ep *EndpointPolicy, dir Direction, kind Kind, pkt *Packet, sets IP
 			res := EvalRules(rules, pkt, sets)
 			switch res.Action {
 			case Allow:
-				return Decision{Allowed, "policy", t.Name, p.Name, res.Index}
+				return Decision{Verdict: Allowed, Why: "policy", Tier: t.Name, Policy: p.Name, Rule: res.Index}
 			case Deny:
-				return Decision{Denied, "policy", t.Name, p.Name, res.Index}
+				return Decision{Verdict: Denied, Why: "policy", Tier: t.Name, Policy: p.Name, Rule: res.Index}
 			case Pass:
 				passed = true
 				break policies
@@ -638,12 +644,12 @@ func Endpoint(ep *EndpointPolicy, dir Direction, kind Kind, pkt *Packet, sets IP
 			continue
 		}
 		if !strings.EqualFold(t.DefaultAction, "Pass") {
-			return Decision{Denied, "end-of-tier", t.Name, "", -1}
+			return Decision{Verdict: Denied, Why: "end-of-tier", Tier: t.Name, Rule: -1}
 		}
 	}
 	switch kind {
 	case KindNormal:
-		for _, pr := range ep.Profiles {
+		for i, pr := range ep.Profiles {
 			rules := pr.Inbound
 			if dir == Egress {
 				rules = pr.Outbound
@@ -651,18 +657,30 @@ func Endpoint(ep *EndpointPolicy, dir Direction, kind Kind, pkt *Packet, sets IP
 			res := EvalRules(rules, pkt, sets)
 			switch res.Action {
 			case Allow:
-				return Decision{Allowed, "profile", "", pr.Name, res.Index}
+				return Decision{Verdict: Allowed, Why: "profile", Policy: pr.Name, Rule: res.Index}
 			case Deny:
-				return Decision{Denied, "profile", "", pr.Name, res.Index}
+				return Decision{Verdict: Denied, Why: "profile", Policy: pr.Name, Rule: res.Index}
 			case Pass:
-				return Decision{Denied, "profile-pass", "", pr.Name, res.Index}
+				d := Decision{Verdict: Denied, Why: "profile-pass", Policy: pr.Name, Rule: res.Index}
+				// Would a later profile have allowed it?  Then the outcome is not defined
+				// by the documentation and the dataplanes are known to differ.
+				for _, later := range ep.Profiles[i+1:] {
+					lr := later.Inbound
+					if dir == Egress {
+						lr = later.Outbound
+					}
+					if EvalRules(lr, pkt, sets).Action == Allow {
+						d.Ambiguous = true
+					}
+				}
+				return d
 			}
 		}
-		return Decision{Denied, "no-profile-match", "", "", -1}
+		return Decision{Verdict: Denied, Why: "no-profile-match", Rule: -1}
 	case KindForward:
 		if len(ep.Tiers) == 0 {
-			return Decision{Allowed, "forward-no-tiers", "", "", -1}
+			return Decision{Verdict: Allowed, Why: "forward-no-tiers", Rule: -1}
 		}
 	}
-	return Decision{NoVerdict, "fell-through", "", "", -1}
+	return Decision{Verdict: NoVerdict, Why: "fell-through", Rule: -1}
 }
